@@ -147,7 +147,7 @@ fn main() {
 
     if args.replay.is_none() {
         let before = seqs.len();
-        let l = if args.thorough() { 5 } else { 4 };
+        let l = 4;
         let mut bs = vec![];
         for k in 1..=l {
             bases(k, &mut bs);
